@@ -10,7 +10,23 @@
 //! is simplest-first: rank, then element count, then lexicographic shape, then lexicographic index):
 //!   from_vec_valid, index_row_major, get_index, from_slice, new_writes, iter_order,
 //!   index_mut_writes_one, oob_panics, ctor_rejects_zero_extent, ctor_rejects_bad_len,
-//!   io_roundtrip, write_format, eq_data, eq_shape, clone, clone_from.
+//!   io_roundtrip, write_format, eq_data, eq_shape, clone, clone_from,
+//!   elem_index, elem_eq, elem_clone, elem_clone_from.
+//!
+//! Writer history (families io_roundtrip, write_format): a tensor is rarely the first thing written through a
+//! Writer, so besides a fresh Writer both families run with `fill` bytes of earlier output pending in the SAME
+//! Writer: every fill level B-W..=B and B+1 of the buffer size B (OBSERVED at run time: single bytes are fed
+//! until the sink receives its first write), so that every separator and element within the first W+1 bytes of
+//! the tensor's text is the write that meets the full buffer.  The text is read back from where the tensor
+//! starts and must not depend on the fill level.
+//!
+//! Element types (families elem_*): the statement does not restrict the element type, so the clauses that do
+//! not need IO are repeated for degenerate instantiations — zero-sized types (`()`, a unit struct: every Vec
+//! of them has the same dangling address and no bytes), bool, u8, a 24-byte struct whose values differ in the
+//! last field only, and String (equal elements that are not bitwise equal; a shallow copy would share them):
+//! construction three ways + every valid / out-of-range index, `==` (a tensor with itself, with its clone,
+//! with a rebuilt one, with one element changed, with every other shape of the same rank — equal and different
+//! element count), clone, and clone_from over every ordered pair of same-rank shapes.
 //!
 //! Copies (families clone, clone_from): a tensor obtained through `Clone` is a tensor like any other, so the
 //! property's clauses are demanded of it too: for every shape `t.clone()`, and for every ORDERED pair of
@@ -26,6 +42,7 @@
 use rayon::prelude::*;
 use rlib_io::{Readable, Reader, Writable, Writer};
 use rlib_tensor::Tensor;
+use std::cell::{Cell, RefCell};
 use std::collections::{BTreeMap, BTreeSet};
 use std::fmt::Debug;
 use vcore::*;
@@ -208,6 +225,13 @@ fn str_in_domain(s: &str) -> bool {
 }
 fn str_vals() -> Vec<String> {
     STR_CANDIDATES.iter().filter(|s| str_in_domain(s)).map(|s| s.to_string()).collect()
+}
+/// String elements around the size `b` of the Writer's buffer (one byte less, exactly, one byte more: such an
+/// element cannot sit in the buffer together with anything written before it) between short ones; the long
+/// tokens cycle through the alphabet from different letters, so a moved or truncated piece is visible
+fn long_str_vals(b: usize) -> Vec<String> {
+    let long = |len: usize, from: usize| -> String { (0..len).map(|i| (b'a' + ((from + i) % 26) as u8) as char).collect() };
+    vec!["a".to_string(), long(b - 1, 0), "bc".to_string(), long(b, 7), "-7".to_string(), long(b + 1, 13)]
 }
 fn rotated<T: Clone>(list: &[T], n: usize, rot: usize) -> Vec<T> {
     (0..n).map(|k| list[(k + rot) % list.len()].clone()).collect()
@@ -446,15 +470,160 @@ fn atom_iter<const D: usize>(base: &Tensor<E, D>, dims: &[usize; D], which: &str
     }
 }
 
-fn write_one<T: Writable>(x: &T) -> Result<Vec<u8>, String> {
+// ---------------------------------------------------------------------------------------------
+// the Writer's history: `fill` bytes of earlier output written through the same Writer before the tensor
+
+/// sink that keeps the bytes and the length of the first write it is offered (= where the Writer's first
+/// flush fell)
+struct RecSink<'a> {
+    out: &'a mut Vec<u8>,
+    first_write: &'a Cell<usize>,
+}
+
+impl std::io::Write for RecSink<'_> {
+    fn write(&mut self, buf: &[u8]) -> std::io::Result<usize> {
+        if self.first_write.get() == 0 {
+            self.first_write.set(buf.len());
+        }
+        self.out.extend_from_slice(buf);
+        Ok(buf.len())
+    }
+    fn flush(&mut self) -> std::io::Result<()> {
+        Ok(())
+    }
+}
+
+/// The Writer's buffer size B, observed: single bytes go through `write_char` until the sink is offered its
+/// first write, whose length is the number of bytes the Writer could hold.  None if nothing reaches the sink
+/// within `OBSERVE_CAP` bytes.
+fn observe_buffer_size() -> Option<usize> {
+    const OBSERVE_CAP: usize = 1 << 24;
     let mut out: Vec<u8> = vec![];
+    let first_write = Cell::new(0usize);
     catch(|| {
-        let mut w = Writer::new(Box::new(&mut out));
+        let mut w = Writer::new(Box::new(RecSink { out: &mut out, first_write: &first_write }));
+        for _ in 0..OBSERVE_CAP {
+            if first_write.get() != 0 {
+                break;
+            }
+            w.write_char(FILLER as char);
+        }
+    })
+    .ok()?;
+    (first_write.get() > 0).then_some(first_write.get())
+}
+
+/// fill levels of the Writer at which the tensor is written, besides 0
+struct Fills {
+    /// observed buffer size
+    b: usize,
+    /// the last `window` levels below full, exactly full, and one byte more (= one byte after a flush)
+    levels: Vec<usize>,
+}
+
+impl Fills {
+    fn new(b: usize, window: usize) -> Fills {
+        Fills { b, levels: (b - window.min(b - 1)..=b + 1).collect() }
+    }
+}
+
+const FILLER: u8 = b'#';
+/// widest window of fill levels below the full buffer (thorough tier)
+const FILL_WINDOW_MAX: usize = 256;
+
+struct Written {
+    /// what reached the sink after the filler
+    text: Vec<u8>,
+    /// length of the first write the sink was offered
+    first_write: usize,
+}
+
+impl Written {
+    /// Some(p) if the Writer's first flush fell inside this text: `fill` filler bytes and the first p bytes of
+    /// the text made up the first write, i.e. the piece starting at text[p] is the one that met the full buffer
+    fn boundary(&self, fill: usize) -> Option<usize> {
+        (fill > 0 && self.first_write >= fill && self.first_write - fill < self.text.len()).then(|| self.first_write - fill)
+    }
+}
+
+/// `fill` filler bytes, then `x`, through ONE real Writer; the filler must arrive intact and is cut off
+fn write_after<T: Writable>(fill: usize, x: &T) -> Result<Written, String> {
+    let mut out: Vec<u8> = Vec::with_capacity(fill + 64);
+    let first_write = Cell::new(0usize);
+    catch(|| {
+        let mut w = Writer::new(Box::new(RecSink { out: &mut out, first_write: &first_write }));
+        if fill > 0 {
+            w.write(&String::from_utf8(vec![FILLER; fill]).unwrap());
+        }
         w.write(x);
         drop(w);
     })
-    .map_err(|p| format!("writing panicked: {p}"))?;
-    Ok(out)
+    .map_err(|p| format!("writing {}panicked: {p}", after(fill)))?;
+    if out.len() < fill || out[..fill].iter().any(|b| *b != FILLER) {
+        return Err(format!("the sink did not receive the {fill} filler bytes written before the tensor intact ({} bytes arrived in all)", out.len()));
+    }
+    Ok(Written { text: out.split_off(fill), first_write: first_write.get() })
+}
+
+fn write_one<T: Writable>(x: &T) -> Result<Vec<u8>, String> {
+    write_after(0, x).map(|w| w.text)
+}
+
+/// Each element's own text: the elements go one by one through one fresh Writer with a flush after each, so
+/// every element is written into an empty buffer; what the sink has received after the k-th flush ends the
+/// k-th text.
+fn write_each<T: Writable>(data: &[T]) -> Result<Vec<Vec<u8>>, String> {
+    struct Shared<'a>(&'a RefCell<Vec<u8>>);
+    impl std::io::Write for Shared<'_> {
+        fn write(&mut self, buf: &[u8]) -> std::io::Result<usize> {
+            self.0.borrow_mut().extend_from_slice(buf);
+            Ok(buf.len())
+        }
+        fn flush(&mut self) -> std::io::Result<()> {
+            Ok(())
+        }
+    }
+    let out = RefCell::new(vec![]);
+    let mut ends = vec![];
+    catch(|| {
+        let mut w = Writer::new(Box::new(Shared(&out)));
+        for x in data {
+            w.write(x);
+            w.flush();
+            ends.push(out.borrow().len());
+        }
+    })
+    .map_err(|p| format!("writing the elements one by one panicked: {p}"))?;
+    let out = out.into_inner();
+    let mut from = 0;
+    Ok(ends
+        .into_iter()
+        .map(|to| {
+            let piece = out[from..to].to_vec();
+            from = to;
+            piece
+        })
+        .collect())
+}
+
+/// words for a failure message: where in the Writer's history the tensor was written
+fn after(fill: usize) -> String {
+    if fill == 0 {
+        String::new()
+    } else {
+        format!("(through a Writer that already held {fill} bytes of earlier output) ")
+    }
+}
+
+/// Debug rendering cut to a readable length (an element can be as long as the Writer's buffer)
+fn brief(x: &impl Debug) -> String {
+    let s = format!("{x:?}");
+    let len = s.chars().count();
+    if len > 120 {
+        format!("{}… ({len} chars)", s.chars().take(120).collect::<String>())
+    } else {
+        s
+    }
 }
 
 fn show(b: &[u8]) -> String {
@@ -466,120 +635,143 @@ fn show(b: &[u8]) -> String {
     }
 }
 
-/// write with the real Writer, read back with Tensor::read and the same shape: same dims, elementwise
-/// equal data, and `==` true
-fn atom_io<T: Clone + PartialEq + Debug + Readable + Writable, const D: usize>(dims: [usize; D], data: &[T]) -> Result<Vec<u8>, String> {
+/// write with the real Writer (after `fill` bytes of earlier output), read back from where the tensor starts
+/// with Tensor::read and the same shape: same dims, elementwise equal data, and `==` true
+fn atom_io<T: Clone + PartialEq + Debug + Readable + Writable, const D: usize>(dims: [usize; D], data: &[T], fill: usize) -> Result<Written, String> {
     let t = catch(|| Tensor::<T, D>::from_vec(dims, data.to_vec())).map_err(|p| format!("shape {}: from_vec panicked: {p}", cd(&dims)))?;
-    let text = write_one(&t).map_err(|m| format!("shape {}: {m}", cd(&dims)))?;
+    let written = write_after(fill, &t).map_err(|m| format!("shape {}: {m}", cd(&dims)))?;
+    let text = &written.text;
+    let head = format!("shape {}: {}", cd(&dims), after(fill));
     let back = catch(|| {
         let mut r = Reader::new(Box::new(&text[..]));
         Tensor::<T, D>::read(dims, &mut r)
     })
-    .map_err(|p| format!("shape {}: Tensor::read of the written text {} panicked: {p}", cd(&dims), show(&text)))?;
+    .map_err(|p| format!("{head}Tensor::read of the written text {} panicked: {p}", show(text)))?;
     if back.dims() != &dims {
-        return Err(format!("shape {}: the tensor read back reports dims {}", cd(&dims), cd(back.dims())));
+        return Err(format!("{head}the tensor read back reports dims {}", cd(back.dims())));
     }
     let got = data_of(&back);
     if got.as_slice() != data {
         let k = first_diff(&got, data);
         return Err(format!(
-            "shape {}: wrote {} and read it back with the same shape: {} elements, element #{k} is {:?}, written was {:?}",
-            cd(&dims),
-            show(&text),
+            "{head}wrote {} and read it back with the same shape: {} elements, element #{k} is {}, written was {}",
+            show(text),
             got.len(),
-            got.get(k),
-            data.get(k)
+            brief(&got.get(k)),
+            brief(&data.get(k))
         ));
     }
     for (k, idx) in all_indices(&dims).into_iter().enumerate() {
         match catch(|| back[idx].clone()) {
             Ok(v) if v == data[k] => {}
-            other => return Err(format!("shape {}: tensor read back: t[{}] gives {other:?}, written was {:?}", cd(&dims), cd(&idx), data[k])),
+            other => return Err(format!("{head}tensor read back: t[{}] gives {}, written was {}", cd(&idx), brief(&other), brief(&data[k]))),
         }
     }
     match catch(|| back == t && t == back) {
-        Ok(true) => Ok(text),
-        other => Err(format!("shape {}: the tensor read back has the same shape and elements but `==` gives {other:?}", cd(&dims))),
+        Ok(true) => Ok(written),
+        other => Err(format!("{head}the tensor read back has the same shape and elements but `==` gives {other:?}")),
     }
 }
 
-/// the written text is exactly the documented layout of the elements' own renderings
-fn atom_format<T: Clone + Writable, const D: usize>(dims: [usize; D], data: &[T]) -> Result<(), String> {
+/// the written text is exactly the documented layout of the elements' own renderings (each written into an
+/// empty buffer, see write_each), whatever the Writer held before
+fn atom_format<T: Clone + Writable, const D: usize>(dims: [usize; D], data: &[T], fill: usize) -> Result<Written, String> {
     let t = catch(|| Tensor::<T, D>::from_vec(dims, data.to_vec())).map_err(|p| format!("shape {}: from_vec panicked: {p}", cd(&dims)))?;
-    let text = write_one(&t).map_err(|m| format!("shape {}: {m}", cd(&dims)))?;
-    let mut elems = vec![];
-    for x in data {
-        elems.push(write_one(x)?);
-    }
-    let want = ref_format(&dims, &elems);
-    if text != want {
-        let k = first_diff(&text, &want);
+    let written = write_after(fill, &t).map_err(|m| format!("shape {}: {m}", cd(&dims)))?;
+    let want = ref_format(&dims, &write_each(data)?);
+    if written.text != want {
+        let k = first_diff(&written.text, &want);
         return Err(format!(
-            "shape {}: written text is {} but the documented layout (spaces inside the last dimension, k-1 newlines between the sub-blocks of a rank-k block, nothing after the last element) is {}; first difference at byte {k}",
+            "shape {}: {}written text is {} but the documented layout (spaces inside the last dimension, k-1 newlines between the sub-blocks of a rank-k block, nothing after the last element) is {}; first difference at byte {k}",
             cd(&dims),
-            show(&text),
+            after(fill),
+            show(&written.text),
             show(&want)
         ));
     }
-    Ok(())
+    Ok(written)
 }
 
-fn io_case<const D: usize>(dims: [usize; D], ty: &str, rot: usize, format_only: bool) -> Result<Vec<u8>, String> {
-    let n = product(&dims);
-    match ty {
-        "i32" => {
-            let d = rotated(I32_VALS, n, rot);
-            if format_only {
-                atom_format(dims, &d).map(|_| vec![])
-            } else {
-                atom_io(dims, &d)
-            }
-        }
-        "u64" => {
-            let d = rotated(U64_VALS, n, rot);
-            if format_only {
-                atom_format(dims, &d).map(|_| vec![])
-            } else {
-                atom_io(dims, &d)
-            }
-        }
-        "u128" => {
-            let d = rotated(&u128_vals(), n, rot);
-            if format_only {
-                atom_format(dims, &d).map(|_| vec![])
-            } else {
-                atom_io(dims, &d)
-            }
-        }
-        "i128" => {
-            let d = rotated(&i128_vals(), n, rot);
-            if format_only {
-                atom_format(dims, &d).map(|_| vec![])
-            } else {
-                atom_io(dims, &d)
-            }
-        }
-        "String" => {
-            let d = rotated(&str_vals(), n, rot);
-            if format_only {
-                atom_format(dims, &d).map(|_| vec![])
-            } else {
-                atom_io(dims, &d)
-            }
-        }
-        _ => Err(format!("unknown element type {ty}")),
-    }
-}
-fn io_list_len(ty: &str) -> usize {
-    match ty {
-        "i32" => I32_VALS.len(),
-        "u64" => U64_VALS.len(),
-        "u128" => u128_vals().len(),
-        "i128" => i128_vals().len(),
-        _ => str_vals().len(),
-    }
-}
 const IO_TYPES: &[&str] = &["i32", "u64", "u128", "i128", "String"];
+/// String elements as long as the Writer's buffer (see long_str_vals); only for shapes of at most this many elements
+const LONG_TYPE: &str = "LongString";
+const LONG_MAX_ELEMS: usize = 4;
+
+/// One case of the families io_roundtrip / write_format besides the shape: the elements are a rotation of the
+/// element type's value list, written after `fill` bytes of earlier output.
+#[derive(Clone, Copy)]
+struct IoCase<'a> {
+    ty: &'a str,
+    rot: usize,
+    fill: usize,
+    /// LongString only: the buffer size its long tokens are built around
+    b: usize,
+}
+
+impl IoCase<'_> {
+    fn list_len(ty: &str) -> usize {
+        match ty {
+            "i32" => I32_VALS.len(),
+            "u64" => U64_VALS.len(),
+            "u128" => u128_vals().len(),
+            "i128" => i128_vals().len(),
+            LONG_TYPE => long_str_vals(2).len(),
+            _ => str_vals().len(),
+        }
+    }
+
+    fn run<const D: usize>(&self, dims: [usize; D], format_only: bool) -> Result<Written, String> {
+        fn go<T: Clone + PartialEq + Debug + Readable + Writable, const D: usize>(c: &IoCase, dims: [usize; D], list: &[T], format_only: bool) -> Result<Written, String> {
+            let data = rotated(list, product(&dims), c.rot);
+            if format_only {
+                atom_format(dims, &data, c.fill)
+            } else {
+                atom_io(dims, &data, c.fill)
+            }
+        }
+        match self.ty {
+            "i32" => go(self, dims, I32_VALS, format_only),
+            "u64" => go(self, dims, U64_VALS, format_only),
+            "u128" => go(self, dims, &u128_vals(), format_only),
+            "i128" => go(self, dims, &i128_vals(), format_only),
+            "String" => go(self, dims, &str_vals(), format_only),
+            LONG_TYPE if self.b >= 2 => go(self, dims, &long_str_vals(self.b), format_only),
+            ty => Err(format!("unknown element type {ty}")),
+        }
+    }
+
+    fn sig(&self, dims: &[usize]) -> String {
+        let mut s = format!("{}:{}:rot={}", self.ty, cd(dims), self.rot);
+        if self.ty == LONG_TYPE {
+            s.push_str(&format!(":B={}", self.b));
+        }
+        if self.fill > 0 {
+            s.push_str(&format!(":fill={}", self.fill));
+        }
+        s
+    }
+
+    fn replay(&self, dims: &[usize]) -> Value {
+        json!({"rank": dims.len(), "dims": dims, "ty": self.ty, "rot": self.rot, "fill": self.fill, "b": self.b})
+    }
+
+    /// `fill` and `b` are absent in replay files written before they existed: a fresh Writer, no long tokens
+    fn from_replay(v: &Value) -> Result<IoCase<'_>, String> {
+        let num = |k: &str| v[k].as_u64().unwrap_or(0) as usize;
+        Ok(IoCase { ty: v["ty"].as_str().ok_or("replay: ty")?, rot: v["rot"].as_u64().ok_or("replay: rot")? as usize, fill: num("fill"), b: num("b") })
+    }
+}
+
+/// both IO families for one case; gives back what the round trip wrote
+fn check_io<const D: usize>(acc: &mut Acc, dims: [usize; D], case: IoCase) -> Option<Written> {
+    let (written, r) = match case.run(dims, false) {
+        Ok(w) => (Some(w), Ok(())),
+        Err(m) => (None, Err(m)),
+    };
+    acc.check("io_roundtrip", 2 * product(&dims) as u64 + 3, r, || case.sig(&dims), || case.replay(&dims));
+    acc.check("write_format", 1, case.run(dims, true).map(|_| ()), || case.sig(&dims), || case.replay(&dims));
+    written
+}
 
 /// equal shape and equal elements (built three different ways) must compare equal
 fn atom_eq_same<const D: usize>(dims: [usize; D]) -> Result<(), String> {
@@ -725,6 +917,358 @@ fn atom_clone_from<const D: usize>(dst_dims: [usize; D], src_dims: [usize; D]) -
 }
 
 // ---------------------------------------------------------------------------------------------
+// element types: the clauses that need no IO, for degenerate instantiations of T
+
+/// An element type for the families elem_*.  Tensors are built of nth(0), nth(1), …; `alt(k)` is what a changed
+/// element k (and a clone_from target before the call) holds.
+trait Elem: Clone + PartialEq + Debug {
+    const NAME: &'static str;
+    fn nth(k: usize) -> Self;
+    /// a value different from nth(k); None if the type has a single value
+    fn alt(k: usize) -> Option<Self>;
+}
+
+/// zero-sized like `()`, but a user-defined type with derived impls
+#[derive(Clone, PartialEq, Debug)]
+struct Unit;
+
+/// 24 bytes; nth and alt differ in the LAST field only
+#[derive(Clone, PartialEq, Debug)]
+struct Wide {
+    a: u64,
+    b: u64,
+    c: u64,
+}
+
+const _: () = assert!(std::mem::size_of::<()>() == 0 && std::mem::size_of::<Unit>() == 0 && std::mem::size_of::<Wide>() == 24);
+
+impl Elem for () {
+    const NAME: &'static str = "()";
+    fn nth(_: usize) {}
+    fn alt(_: usize) -> Option<()> {
+        None
+    }
+}
+impl Elem for Unit {
+    const NAME: &'static str = "Unit";
+    fn nth(_: usize) -> Unit {
+        Unit
+    }
+    fn alt(_: usize) -> Option<Unit> {
+        None
+    }
+}
+impl Elem for bool {
+    const NAME: &'static str = "bool";
+    fn nth(k: usize) -> bool {
+        k % 3 == 0
+    }
+    fn alt(k: usize) -> Option<bool> {
+        Some(k % 3 != 0)
+    }
+}
+impl Elem for u8 {
+    const NAME: &'static str = "u8";
+    /// 255, 254, …, 0, 255, …
+    fn nth(k: usize) -> u8 {
+        255 - (k % 256) as u8
+    }
+    fn alt(k: usize) -> Option<u8> {
+        Some(Self::nth(k) ^ 0x80)
+    }
+}
+impl Elem for Wide {
+    const NAME: &'static str = "Wide24";
+    fn nth(k: usize) -> Wide {
+        Wide { a: k as u64, b: !(k as u64), c: 7 }
+    }
+    fn alt(k: usize) -> Option<Wide> {
+        Some(Wide { c: 8, ..Self::nth(k) })
+    }
+}
+impl Elem for String {
+    const NAME: &'static str = "String";
+    fn nth(k: usize) -> String {
+        format!("s{k}")
+    }
+    fn alt(k: usize) -> Option<String> {
+        Some(format!("s{k}'"))
+    }
+}
+
+const ELEM_TYPES: &[&str] = &["()", "Unit", "bool", "u8", "Wide24", "String"];
+
+/// `$f::<T, $d>(args)` for the element type named `$ty` (`$f` returns a Result<_, String>)
+macro_rules! by_elem {
+    ($ty:expr, $f:ident, $d:ident ( $($a:expr),* )) => {
+        match $ty {
+            "()" => $f::<(), $d>($($a),*),
+            "Unit" => $f::<Unit, $d>($($a),*),
+            "bool" => $f::<bool, $d>($($a),*),
+            "u8" => $f::<u8, $d>($($a),*),
+            "Wide24" => $f::<Wide, $d>($($a),*),
+            "String" => $f::<String, $d>($($a),*),
+            other => Err(format!("unknown element type {other}")),
+        }
+    };
+}
+
+fn elem_seq<T: Elem>(n: usize) -> Vec<T> {
+    (0..n).map(T::nth).collect()
+}
+
+/// what a changed tensor / a clone_from target holds: alt(k) where the type has a second value
+fn elem_alt_seq<T: Elem>(n: usize) -> Vec<T> {
+    (0..n).map(|k| T::alt(k).unwrap_or_else(|| T::nth(k))).collect()
+}
+
+fn elem_build<T: Elem, const D: usize>(dims: [usize; D], data: Vec<T>) -> Result<Tensor<T, D>, String> {
+    let len = data.len();
+    catch(|| Tensor::from_vec(dims, data)).map_err(|p| format!("Tensor::<{}, {D}>::from_vec({}, {len} values) panicked: {p}", T::NAME, cd(&dims)))
+}
+
+/// every index with exactly one coordinate out of range (= its extent, or usize::MAX), the others over all
+/// valid values
+fn oob_probes<const D: usize>(dims: &[usize; D]) -> Vec<[usize; D]> {
+    let mut out = vec![];
+    for j in 0..D {
+        let mut others = *dims;
+        others[j] = 1;
+        for r in all_indices(&others) {
+            for bad in [dims[j], usize::MAX] {
+                let mut idx = r;
+                idx[j] = bad;
+                out.push(idx);
+            }
+        }
+    }
+    out
+}
+
+/// `t` is supposed to have shape `dims` and hold `want` row-major: dims(); iter(); every valid index through
+/// Index and get_index; with `probes`, every index of `oob_probes` is rejected by Index and get_index.
+/// Returns the number of comparisons made.
+fn elem_examine<T: Elem, const D: usize>(t: &Tensor<T, D>, dims: &[usize; D], want: &[T], probes: bool, how: &str) -> Result<u64, String> {
+    match catch(|| *t.dims()) {
+        Ok(d) if d == *dims => {}
+        other => return Err(format!("{how}: dims() gives {other:?}, expected {}", cd(dims))),
+    }
+    let got = catch(|| data_of(t)).map_err(|p| format!("{how}: iter() panicked: {p}"))?;
+    if got != want {
+        let k = first_diff(&got, want);
+        return Err(format!("{how}: iter() gives {} elements, expected {}; element #{k} is {:?}, expected {:?}", got.len(), want.len(), got.get(k), want.get(k)));
+    }
+    let mut evals = 2;
+    for (k, idx) in all_indices(dims).into_iter().enumerate() {
+        match catch(|| t[idx].clone()) {
+            Ok(v) if v == want[k] => {}
+            other => return Err(format!("{how}: t[{}] gives {other:?}, expected row-major element #{k} = {:?}", cd(&idx), want[k])),
+        }
+        match catch(|| t.get_index(idx)) {
+            Ok(o) if o == k => {}
+            other => return Err(format!("{how}: get_index({}) gives {other:?}, expected {k}", cd(&idx))),
+        }
+        evals += 2;
+    }
+    if probes {
+        for idx in oob_probes(dims) {
+            if let Ok(v) = catch(|| t[idx].clone()) {
+                return Err(format!("{how}: index {} is out of range in one dimension of shape {} but t[idx] read {v:?} instead of panicking", cd(&idx), cd(dims)));
+            }
+            if let Ok(o) = catch(|| t.get_index(idx)) {
+                return Err(format!("{how}: index {} is out of range in one dimension of shape {} but get_index returned {o} instead of panicking", cd(&idx), cd(dims)));
+            }
+            evals += 2;
+        }
+    }
+    Ok(evals)
+}
+
+const ELEM_CTORS: &[&str] = &["from_vec", "from_slice", "new_writes"];
+
+/// construct one of three ways, examine, then writes through IndexMut: rejected at every out-of-range probe,
+/// and at every valid index changing exactly that element (types with a second value)
+fn atom_elem_index<T: Elem, const D: usize>(dims: [usize; D], ctor: &str) -> Result<u64, String> {
+    let n = product(&dims);
+    let want: Vec<T> = elem_seq(n);
+    let idxs = all_indices(&dims);
+    let how = format!("Tensor<{}, {D}> of shape {} built by {ctor}", T::NAME, cd(&dims));
+    let mut t = match ctor {
+        "from_vec" => elem_build(dims, want.clone())?,
+        "from_slice" => catch(|| Tensor::<T, D>::from_slice(dims, &want)).map_err(|p| format!("{how}: from_slice with {n} values panicked: {p}"))?,
+        "new_writes" => {
+            let init = T::alt(0).unwrap_or_else(|| T::nth(0));
+            let mut t = catch(|| Tensor::<T, D>::new(dims, init.clone())).map_err(|p| format!("{how}: new panicked on a valid shape: {p}"))?;
+            elem_examine(&t, &dims, &vec![init; n], false, &format!("{how}, before the writes"))?;
+            // written in REVERSE index order, so the result does not depend on the order of writes
+            for (k, idx) in idxs.iter().enumerate().rev() {
+                catch(|| t[*idx] = T::nth(k)).map_err(|p| format!("{how}: t[{}] = x panicked on a valid index: {p}", cd(idx)))?;
+            }
+            t
+        }
+        _ => return Err(format!("unknown constructor {ctor}")),
+    };
+    let mut evals = elem_examine(&t, &dims, &want, true, &how)?;
+    for idx in oob_probes(&dims) {
+        if catch(|| t[idx] = T::nth(0)).is_ok() {
+            return Err(format!("{how}: index {} is out of range in one dimension but t[idx] = x did not panic", cd(&idx)));
+        }
+        evals += 1;
+    }
+    if data_of(&t) != want {
+        return Err(format!("{how}: the rejected out-of-range writes changed the tensor"));
+    }
+    for (k, idx) in idxs.iter().enumerate() {
+        let Some(x) = T::alt(k) else { break };
+        let mut c = t.clone();
+        catch(|| c[*idx] = x.clone()).map_err(|p| format!("{how}: t[{}] = x panicked on a valid index: {p}", cd(idx)))?;
+        let got = data_of(&c);
+        if got.len() != n || (0..n).any(|j| got[j] != *if j == k { &x } else { &want[j] }) {
+            let changed: Vec<usize> = (0..got.len().min(n)).filter(|&j| got[j] != want[j]).collect();
+            return Err(format!("{how}: t[{}] = {x:?} must change exactly storage element #{k}; elements changed: {changed:?} (storage length {})", cd(idx), got.len()));
+        }
+        evals += n as u64;
+    }
+    Ok(evals)
+}
+
+/// equal shape and equal elements: a tensor and itself, its clone, one rebuilt from a slice
+fn atom_elem_eq_same<T: Elem, const D: usize>(dims: [usize; D]) -> Result<u64, String> {
+    let seq: Vec<T> = elem_seq(product(&dims));
+    let a = elem_build(dims, seq.clone())?;
+    let b = catch(|| Tensor::<T, D>::from_slice(dims, &seq)).map_err(|p| format!("from_slice panicked: {p}"))?;
+    let c = catch(|| a.clone()).map_err(|p| format!("clone panicked: {p}"))?;
+    #[allow(clippy::eq_op)]
+    let r = catch(|| [a == a, !(a != a), a == b, b == a, a == c, c == a, !(a != b)]).map_err(|p| format!("== panicked: {p}"))?;
+    if r.iter().all(|&x| x) {
+        Ok(r.len() as u64)
+    } else {
+        Err(format!(
+            "Tensor<{}, {D}> of shape {}: tensors with the same shape and the same elements must be equal; [t==t, !(t!=t), from_vec==from_slice, from_slice==from_vec, t==t.clone(), t.clone()==t, !(from_vec!=from_slice)] = {r:?}",
+            T::NAME,
+            cd(&dims)
+        ))
+    }
+}
+
+/// same shape, exactly storage element k different (types with a second value)
+fn atom_elem_eq_changed<T: Elem, const D: usize>(dims: [usize; D], k: usize) -> Result<u64, String> {
+    let x = T::alt(k).ok_or_else(|| format!("replay: {} has a single value", T::NAME))?;
+    let a = elem_build(dims, elem_seq::<T>(product(&dims)))?;
+    let mut v: Vec<T> = elem_seq(product(&dims));
+    v[k] = x;
+    let b = elem_build(dims, v)?;
+    match catch(|| (a == b, b == a, a != b)) {
+        Ok((false, false, true)) => Ok(3),
+        other => Err(format!("Tensor<{}, {D}> of shape {}: two tensors that differ in storage element #{k} only: (a==b, b==a, a!=b) = {other:?}, expected (false, false, true)", T::NAME, cd(&dims))),
+    }
+}
+
+/// same rank, different shape, the same element sequence (as far as the shorter one goes): never equal.  Also
+/// reports whether the two live tensors' element storage had the SAME address (zero-sized elements).
+fn atom_elem_eq_shape<T: Elem, const D: usize>(da: [usize; D], db: [usize; D]) -> Result<(u64, bool), String> {
+    let a = elem_build(da, elem_seq::<T>(product(&da)))?;
+    let b = elem_build(db, elem_seq::<T>(product(&db)))?;
+    let same_address = a.iter().as_slice().as_ptr() == b.iter().as_slice().as_ptr();
+    match catch(|| (a == b, b == a, a != b)) {
+        Ok((false, false, true)) => Ok((3, same_address)),
+        other => Err(format!(
+            "Tensor<{}, {D}> of shape {} ({} elements) and of shape {} ({} elements) have different shapes and must not be equal; (a==b, b==a, a!=b) = {other:?}, expected (false, false, true)",
+            T::NAME,
+            cd(&da),
+            product(&da),
+            cd(&db),
+            product(&db)
+        )),
+    }
+}
+
+/// `c` is supposed to be an independent copy of `src` (shape `dims`, elements nth(0), nth(1), …): it is examined
+/// like a constructed tensor, equals the source both ways, and a write into it (types with a second value)
+/// makes the two unequal and leaves the source as it was
+fn elem_examine_copy<T: Elem, const D: usize>(mut c: Tensor<T, D>, src: &Tensor<T, D>, dims: &[usize; D], probes: bool, how: &str) -> Result<u64, String> {
+    let n = product(dims);
+    let want: Vec<T> = elem_seq(n);
+    let mut evals = elem_examine(&c, dims, &want, probes, how)?;
+    match catch(|| (c == *src, *src == c)) {
+        Ok((true, true)) => {}
+        other => return Err(format!("{how}: the copy has the source's shape {} and elements, but (copy == source, source == copy) = {other:?}", cd(dims))),
+    }
+    evals += 2;
+    if let Some(x) = T::alt(n - 1) {
+        let last = all_indices(dims)[n - 1];
+        catch(|| c[last] = x).map_err(|p| format!("{how}: copy[{}] = x panicked on a valid index: {p}", cd(&last)))?;
+        if data_of(src) != want {
+            return Err(format!("{how}: a write into the copy at {} changed the source", cd(&last)));
+        }
+        match catch(|| (c == *src, *src == c)) {
+            Ok((false, false)) => {}
+            other => return Err(format!("{how}: after the copy's last element was changed, (copy == source, source == copy) = {other:?}")),
+        }
+        evals += 3;
+    }
+    Ok(evals)
+}
+
+fn atom_elem_clone<T: Elem, const D: usize>(dims: [usize; D]) -> Result<u64, String> {
+    let src = elem_build(dims, elem_seq::<T>(product(&dims)))?;
+    let how = format!("Tensor<{}, {D}> of shape {}: t.clone()", T::NAME, cd(&dims));
+    let c = catch(|| src.clone()).map_err(|p| format!("{how} panicked: {p}"))?;
+    elem_examine_copy(c, &src, &dims, true, &how)
+}
+
+/// `dst.clone_from(&src)` for a target of any shape of the same rank (the bounds checks of copies are examined
+/// in elem_clone and, for every ordered pair, in clone_from; here: shape, elements, equality, independence)
+fn atom_elem_clone_from<T: Elem, const D: usize>(dst_dims: [usize; D], src_dims: [usize; D]) -> Result<u64, String> {
+    let src = elem_build(src_dims, elem_seq::<T>(product(&src_dims)))?;
+    let mut dst = elem_build(dst_dims, elem_alt_seq::<T>(product(&dst_dims)))?;
+    let how = format!("Tensor<{}, {D}>: dst of shape {} (other values); dst.clone_from(&src of shape {})", T::NAME, cd(&dst_dims), cd(&src_dims));
+    catch(|| dst.clone_from(&src)).map_err(|p| format!("{how} panicked: {p}"))?;
+    elem_examine_copy(dst, &src, &src_dims, false, &how)
+}
+
+/// the elem_* families of one shape for one element type
+fn check_elem<T: Elem, const D: usize>(acc: &mut Acc, dv: &[usize], peers: &[Vec<usize>], me: usize) {
+    let dims: [usize; D] = to_arr(dv);
+    let n = product(&dims);
+    let ty = T::NAME;
+    let rp = |extra: Value| -> Value {
+        let mut v = json!({"rank": D, "dims": dv, "ty": ty});
+        v.as_object_mut().unwrap().extend(extra.as_object().cloned().unwrap_or_default());
+        v
+    };
+    acc.add("elem_type_shape_combinations", 1);
+    for ctor in ELEM_CTORS {
+        acc.check_counted("elem_index", atom_elem_index::<T, D>(dims, ctor), || format!("{ty}:{ctor}:{}", cd(dv)), || rp(json!({"ctor": ctor})));
+    }
+    acc.check_counted("elem_eq", atom_elem_eq_same::<T, D>(dims), || format!("{ty}:same:{}", cd(dv)), || rp(json!({"kind": "same"})));
+    if T::alt(0).is_some() {
+        for k in 0..n {
+            acc.check_counted("elem_eq", atom_elem_eq_changed::<T, D>(dims, k), || format!("{ty}:changed:{}:#{k}", cd(dv)), || rp(json!({"kind": "changed", "k": k})));
+        }
+    } else {
+        acc.add("elem_eq_changed_skipped_single_valued_type", n as u64);
+    }
+    for other in &peers[me + 1..] {
+        let r = atom_elem_eq_shape::<T, D>(dims, to_arr(other));
+        if matches!(r, Ok((_, true))) {
+            acc.add("elem_eq_shape_pairs_with_the_same_storage_address", 1);
+        }
+        acc.add(if product(other) == n { "elem_eq_shape_pairs_equal_count" } else { "elem_eq_shape_pairs_different_count" }, 1);
+        acc.check_counted("elem_eq", r.map(|(e, _)| e), || format!("{ty}:shape:{}vs{}", cd(dv), cd(other)), || rp(json!({"kind": "shape", "other": other})));
+    }
+    acc.check_counted("elem_clone", atom_elem_clone::<T, D>(dims), || format!("{ty}:{}", cd(dv)), || rp(json!({})));
+    for target in peers {
+        acc.check_counted(
+            "elem_clone_from",
+            atom_elem_clone_from::<T, D>(to_arr(target), dims),
+            || format!("{ty}:{}<-{}", cd(target), cd(dv)),
+            || rp(json!({"dst": target})),
+        );
+    }
+}
+
+// ---------------------------------------------------------------------------------------------
 // accumulator
 
 #[derive(Default)]
@@ -759,6 +1303,10 @@ impl Acc {
             }
         }
     }
+    /// `check` for an atom that returns the number of comparisons it made
+    fn check_counted(&mut self, fam: &'static str, r: Result<u64, String>, sig: impl FnOnce() -> String, replay: impl FnOnce() -> Value) {
+        self.check(fam, *r.as_ref().unwrap_or(&1), r.map(|_| ()), sig, replay)
+    }
     fn merge(&mut self, o: Acc) {
         for (k, v) in o.n {
             *self.n.entry(k).or_insert(0) += v;
@@ -783,7 +1331,7 @@ fn to_arr<const D: usize>(v: &[usize]) -> [usize; D] {
     a
 }
 
-fn check_shape<const D: usize>(dv: &[usize], peers: &[Vec<usize>], me: usize) -> Acc {
+fn check_shape<const D: usize>(dv: &[usize], peers: &[Vec<usize>], me: usize, fills: &Fills) -> Acc {
     let mut acc = Acc::default();
     let dims: [usize; D] = to_arr(dv);
     let n = product(&dims);
@@ -905,12 +1453,12 @@ fn check_shape<const D: usize>(dv: &[usize], peers: &[Vec<usize>], me: usize) ->
         }
     }
 
-    // IO round trip + text layout
+    // IO round trip + text layout through a fresh Writer
     let mut sample_text = None;
     for ty in IO_TYPES {
-        for rot in 0..io_list_len(ty) {
-            let r = io_case(dims, ty, rot, false);
-            if let Ok(text) = &r {
+        for rot in 0..IoCase::list_len(ty) {
+            if let Some(w) = check_io(&mut acc, dims, IoCase { ty, rot, fill: 0, b: 0 }) {
+                let text = &w.text;
                 acc.texts.insert(fnv(text));
                 if text.windows(3).any(|w| w == b"\n\n\n") {
                     acc.flags.insert("text_with_three_newlines");
@@ -929,20 +1477,39 @@ fn check_shape<const D: usize>(dv: &[usize], peers: &[Vec<usize>], me: usize) ->
                     sample_text = Some(show(text));
                 }
             }
-            acc.check(
-                "io_roundtrip",
-                2 * n as u64 + 3,
-                r.map(|_| ()),
-                || format!("{ty}:{}:rot={rot}", cd(dv)),
-                || rp(json!({"ty": ty, "rot": rot})),
-            );
-            acc.check(
-                "write_format",
-                1,
-                io_case(dims, ty, rot, true).map(|_| ()),
-                || format!("{ty}:{}:rot={rot}", cd(dv)),
-                || rp(json!({"ty": ty, "rot": rot})),
-            );
+        }
+    }
+    // the same with earlier output pending in the Writer (first rotation of every list)
+    for ty in IO_TYPES {
+        for &fill in &fills.levels {
+            acc.add("io_cases_with_pending_output", 1);
+            let Some(w) = check_io(&mut acc, dims, IoCase { ty, rot: 0, fill, b: 0 }) else { continue };
+            if let Some(p) = w.boundary(fill) {
+                // the piece of the tensor's text that did not fit any more and forced the flush
+                if w.first_write == fills.b {
+                    acc.add("flush_found_buffer_exactly_full", 1);
+                }
+                acc.add(
+                    match w.text[p] {
+                        b' ' => "flush_forced_by_space",
+                        b'\n' => "flush_forced_by_newline",
+                        b'-' if *ty != "String" => "flush_forced_by_minus_sign",
+                        _ => "flush_forced_by_element",
+                    },
+                    1,
+                );
+            }
+        }
+    }
+    // small shapes: elements as long as the Writer's buffer, at every position
+    if n <= LONG_MAX_ELEMS {
+        for rot in 0..IoCase::list_len(LONG_TYPE) {
+            acc.add("io_cases_with_buffer_sized_elements", 1);
+            if let Some(w) = check_io(&mut acc, dims, IoCase { ty: LONG_TYPE, rot, fill: 0, b: fills.b }) {
+                if w.first_write == fills.b && w.text.len() > fills.b {
+                    acc.add("buffer_sized_element_texts_delivered_in_several_writes", 1);
+                }
+            }
         }
     }
     acc.add("skipped_out_of_domain", STR_CANDIDATES.iter().filter(|s| !str_in_domain(s)).count() as u64);
@@ -978,6 +1545,14 @@ fn check_shape<const D: usize>(dv: &[usize], peers: &[Vec<usize>], me: usize) ->
             1,
         );
     }
+
+    // the clauses that need no IO, for the degenerate element types (simplest type first)
+    check_elem::<(), D>(&mut acc, dv, peers, me);
+    check_elem::<Unit, D>(&mut acc, dv, peers, me);
+    check_elem::<bool, D>(&mut acc, dv, peers, me);
+    check_elem::<u8, D>(&mut acc, dv, peers, me);
+    check_elem::<Wide, D>(&mut acc, dv, peers, me);
+    check_elem::<String, D>(&mut acc, dv, peers, me);
 
     let last = idxs[n - 1];
     acc.samples.push(json!({
@@ -1074,8 +1649,7 @@ fn confirm_d<const D: usize>(v: &Value) -> Result<(), String> {
         }
         "oob_panics" => atom_oob(&build(dims)?, &dims, op, idx()?),
         "ctor_rejects_bad_len" => atom_bad_len(op, dims, v["len"].as_u64().ok_or("replay: len")? as usize),
-        "io_roundtrip" => io_case(dims, v["ty"].as_str().unwrap_or(""), v["rot"].as_u64().ok_or("replay: rot")? as usize, false).map(|_| ()),
-        "write_format" => io_case(dims, v["ty"].as_str().unwrap_or(""), v["rot"].as_u64().ok_or("replay: rot")? as usize, true).map(|_| ()),
+        "io_roundtrip" | "write_format" => IoCase::from_replay(v)?.run(dims, fam == "write_format").map(|_| ()),
         "eq_data" => match v["kind"].as_str() {
             Some("same") => atom_eq_same(dims),
             _ => atom_eq_changed(dims, v["k"].as_u64().ok_or("replay: k")? as usize),
@@ -1095,8 +1669,35 @@ fn confirm_d<const D: usize>(v: &Value) -> Result<(), String> {
             }
             atom_clone_from(to_arr(&o), dims)
         }
+        "elem_index" | "elem_eq" | "elem_clone" | "elem_clone_from" => by_elem!(v["ty"].as_str().unwrap_or(""), confirm_elem, D(v, dims)),
         other => Err(format!("replay: unknown family {other:?}")),
     }
+}
+
+fn confirm_elem<T: Elem, const D: usize>(v: &Value, dims: [usize; D]) -> Result<(), String> {
+    let shape = |key: &str| -> Result<[usize; D], String> {
+        let o = usizes(&v[key])?;
+        if o.len() != D || o.contains(&0) {
+            return Err(format!("replay: bad shape in {key:?}"));
+        }
+        Ok(to_arr(&o))
+    };
+    match (v["family"].as_str().unwrap_or(""), v["kind"].as_str().unwrap_or("")) {
+        ("elem_index", _) => atom_elem_index::<T, D>(dims, v["ctor"].as_str().unwrap_or("")),
+        ("elem_eq", "same") => atom_elem_eq_same::<T, D>(dims),
+        ("elem_eq", "changed") => {
+            let k = v["k"].as_u64().ok_or("replay: k")? as usize;
+            if k >= product(&dims) {
+                return Err("replay: k is not a storage position".into());
+            }
+            atom_elem_eq_changed::<T, D>(dims, k)
+        }
+        ("elem_eq", "shape") => atom_elem_eq_shape::<T, D>(dims, shape("other")?).map(|(e, _)| e),
+        ("elem_clone", _) => atom_elem_clone::<T, D>(dims),
+        ("elem_clone_from", _) => atom_elem_clone_from::<T, D>(shape("dst")?, dims),
+        (f, k) => Err(format!("replay: unknown case {f:?} {k:?}")),
+    }
+    .map(|_| ())
 }
 
 fn confirm(v: &Value) -> Result<(), String> {
@@ -1126,6 +1727,10 @@ const FAMILIES: &[&str] = &[
     "eq_shape",
     "clone",
     "clone_from",
+    "elem_index",
+    "elem_eq",
+    "elem_clone",
+    "elem_clone_from",
 ];
 
 fn main() {
@@ -1141,6 +1746,14 @@ fn main() {
     if catch(|| panic!("probe")).is_ok() {
         run.machinery_failure("catch() does not observe panics");
     }
+
+    // the Writer's buffer size, observed (twice: the Writer has no state outside the object)
+    let fills = match (observe_buffer_size(), observe_buffer_size()) {
+        (Some(b), Some(b2)) if b == b2 && b >= 2 * FILL_WINDOW_MAX => Fills::new(b, args.tier.pick(64, FILL_WINDOW_MAX)),
+        other => run.machinery_failure(&format!(
+            "could not observe a plausible Writer buffer size by feeding single bytes until the sink receives a write: {other:?} (a build that flushes after every write? this engine is built without debug assertions)"
+        )),
+    };
 
     // shapes, simplest first: rank, element count, lexicographic
     let mut per_rank: Vec<Vec<Vec<usize>>> = vec![];
@@ -1167,7 +1780,7 @@ fn main() {
         .par_iter()
         .map(|&(r, i)| {
             let peers = &per_rank[r];
-            by_rank!(r + 1, check_shape(&peers[i], peers, i))
+            by_rank!(r + 1, check_shape(&peers[i], peers, i, &fills))
         })
         .collect();
     let mut total = Acc::default();
@@ -1207,17 +1820,20 @@ fn main() {
     run.cov("oob_inside_storage_by_rank", json!(per_rank_inside));
     run.cov("eq_shape_equal_count_pairs_by_rank", json!(per_rank_eqpairs));
     run.cov("clone_from_targets_by_rank_same_shape_equal_count_more_fewer", json!(per_rank_targets));
+    run.cov("observed_writer_buffer_size", fills.b as u64);
+    run.cov("writer_fill_levels", json!({"besides_0_from": fills.levels[0], "to": fills.levels[fills.levels.len() - 1], "count": fills.levels.len()}));
+    run.cov("elem_types", json!(ELEM_TYPES));
     run.cov("max_rank", MAX_RANK as u64);
     run.cov("max_extent", max_extent as u64);
     run.cov("families", json!(FAMILIES));
     run.cov(
         "rule",
-        "every shape of rank 1..=4 with extents 1..=max_extent (ordered by rank, element count, lexicographic); per shape: every valid multi-index (odometer, last coordinate fastest; the k-th must address storage element k of from_vec(10,11,…)) for Index, get_index and a write through IndexMut; from_slice, new + one write per index, iter/iter_mut/into_iter; every index with exactly one coordinate set to extent, extent+1 or usize::MAX and all other coordinates over all valid values, for get_index, Index and IndexMut (must panic); data lengths 0, n-1, n+1 for from_vec/from_slice (must panic); every shape with extents 0..=max_extent containing a 0 for new, from_vec(empty), from_slice(empty), Tensor::read (must panic); write→Tensor::read round trip and text layout for i32, u64, u128, i128 and String elements with every rotation of a boundary value list (the 128-bit lists hold every power of ten with its neighbours and values with zeros directly below a digit-group boundary); == for same shape same data, same shape one element changed (every position), and every unordered pair of distinct shapes of the same rank; copies: t.clone() for every shape and target.clone_from(&source) for every ORDERED pair of same-rank shapes (target of the same shape, of another shape with the same element count, with more elements, with fewer elements; the target holds 5000,5001,… before the call), the copy being examined like a constructed tensor: dims()/dim(i) are the source's, iter() and every valid index through Index and get_index give the row-major sequence, every index with one coordinate = its extent (others over all valid values) panics, copy == source both ways, write → Tensor::read with the source's shape gives the source back, a write through IndexMut at the last index changes exactly the last element. distinct_nontrivial = MEASURED number of distinct (shape, out-of-range index) cases whose flattened offset sum idx*stride is still inside the storage (aliasing is possible without the per-dimension check) + distinct (shape, valid index) cases whose row-major offset differs from the column-major offset (a stride-order error is observable)",
+        "every shape of rank 1..=4 with extents 1..=max_extent (ordered by rank, element count, lexicographic); per shape: every valid multi-index (odometer, last coordinate fastest; the k-th must address storage element k of from_vec(10,11,…)) for Index, get_index and a write through IndexMut; from_slice, new + one write per index, iter/iter_mut/into_iter; every index with exactly one coordinate set to extent, extent+1 or usize::MAX and all other coordinates over all valid values, for get_index, Index and IndexMut (must panic); data lengths 0, n-1, n+1 for from_vec/from_slice (must panic); every shape with extents 0..=max_extent containing a 0 for new, from_vec(empty), from_slice(empty), Tensor::read (must panic); write→Tensor::read round trip and text layout for i32, u64, u128, i128 and String elements with every rotation of a boundary value list (the 128-bit lists hold every power of ten with its neighbours and values with zeros directly below a digit-group boundary); == for same shape same data, same shape one element changed (every position), and every unordered pair of distinct shapes of the same rank; copies: t.clone() for every shape and target.clone_from(&source) for every ORDERED pair of same-rank shapes (target of the same shape, of another shape with the same element count, with more elements, with fewer elements; the target holds 5000,5001,… before the call), the copy being examined like a constructed tensor: dims()/dim(i) are the source's, iter() and every valid index through Index and get_index give the row-major sequence, every index with one coordinate = its extent (others over all valid values) panics, copy == source both ways, write → Tensor::read with the source's shape gives the source back, a write through IndexMut at the last index changes exactly the last element. Writer history: io_roundtrip and write_format also run, for every shape and element type with the first rotation of its list, with `fill` bytes of earlier output ('#' filler) pending in the same Writer, for every fill in observed_writer_buffer_size-W..=observed_writer_buffer_size+1 (W = 64 quick, 256 thorough; the buffer size is observed by feeding single bytes until the sink is offered its first write): the filler must arrive intact, and the text after it must read back (from where the tensor starts) as the tensor and be the documented layout; flush_forced_by_* count the cases in which the sink's first write ended inside the tensor's text, by the piece (space, newline, minus sign, element) that no longer fitted. Buffer-sized elements: for every shape of at most 4 elements, io_roundtrip and write_format with every rotation of a String list that alternates short tokens with tokens of observed_writer_buffer_size-1, exactly that, and +1 bytes, so an element that cannot share the buffer with what was written before it stands at every position. Element types (elem_*): for T in (), a unit struct, bool, u8, a 24-byte struct (values differ in the last field) and String, per shape: from_vec / from_slice / new + one write per index examined (dims(), iter(), every valid index through Index and get_index, every index with one coordinate = extent or usize::MAX rejected by Index, get_index and IndexMut without changing the tensor, a write at every valid index changes exactly that element); == of a tensor with itself, with its clone, with one rebuilt from a slice (true), with one element changed at every position (false; types with a second value), with every other shape of the same rank holding the same element sequence, equal or different element count (false, both ways, != true); clone() examined the same way and independent of its source; target.clone_from(&source) for every ORDERED pair of same-rank shapes (dims, elements, equality both ways, independence). distinct_nontrivial = MEASURED number of distinct (shape, out-of-range index) cases whose flattened offset sum idx*stride is still inside the storage (aliasing is possible without the per-dimension check) + distinct (shape, valid index) cases whose row-major offset differs from the column-major offset (a stride-order error is observable)",
     );
     run.cov("exhaustive", true);
     run.cov(
         "io_values_note",
-        "the IO round trip cannot enumerate all element values: it uses boundary lists (16 i32 incl. MIN/MAX/negatives, 12 u64 incl. MAX and 10^19, about 190 u128 and 370 i128 values with every decimal digit structure, 11 ASCII tokens), every rotation of each list over every shape, so every listed value is written at every position of every shape",
+        "the IO round trip cannot enumerate all element values: it uses boundary lists (16 i32 incl. MIN/MAX/negatives, 12 u64 incl. MAX and 10^19, about 190 u128 and 370 i128 values with every decimal digit structure, 11 ASCII tokens), every rotation of each list over every shape, so every listed value is written at every position of every shape; String elements as long as the Writer's buffer (B-1, B, B+1 bytes for the observed B) only in shapes of at most 4 elements; at the fill levels near the buffer boundary only the first rotation of each list",
     );
 
     // samples: rotate by VERIF_SEED
@@ -1273,14 +1889,35 @@ fn main() {
             run.machinery_failure("implausibly few distinct written texts");
         }
     }
+    if !total.has("io_roundtrip") && !total.has("write_format") {
+        for f in ["flush_forced_by_space", "flush_forced_by_newline", "flush_forced_by_minus_sign", "flush_forced_by_element", "flush_found_buffer_exactly_full"] {
+            if total.get(f) == 0 {
+                run.machinery_failure(&format!("no tensor written at a fill level near the buffer boundary had its text split there: {f} = 0"));
+            }
+        }
+    }
+    if !total.has("io_roundtrip") && !total.has("write_format") && total.get("buffer_sized_element_texts_delivered_in_several_writes") == 0 {
+        run.machinery_failure("no text with a buffer-sized element reached the sink in several writes");
+    }
+    if total.get("io_cases_with_pending_output") != expected_shapes * (IO_TYPES.len() * fills.levels.len()) as u64 {
+        run.machinery_failure("not every shape and element type was written at every fill level");
+    }
+    if total.get("elem_type_shape_combinations") != expected_shapes * ELEM_TYPES.len() as u64 {
+        run.machinery_failure("not every element type of ELEM_TYPES went through the elem_* families for every shape");
+    }
+    if !total.has("elem_eq") && (total.get("elem_eq_shape_pairs_with_the_same_storage_address") == 0 || total.get("elem_eq_shape_pairs_equal_count") == 0) {
+        run.machinery_failure("elem_eq: no pair of different tensors whose element storage has the same address (zero-sized elements) / no pair with equal element count");
+    }
     if nontrivial < 2 {
         run.machinery_failure("no non-trivial case");
     }
 
-    run.assume("write_format: the 'documented separators' are taken from the crate's own `output` test ([2,2,3] of 0..12 is written as \"0 1 2\\n3 4 5\\n\\n6 7 8\\n9 10 11\") and the property's anchor (spaces inside the last dimension, one more newline per outer dimension): elements of the last dimension joined by ' ', sub-blocks of a rank-k block joined by k-1 '\\n', nothing after the last element; each element's own text is whatever the real Writer produces for that element alone. The property statement itself only demands the round trip (family io_roundtrip); write_format is a separate family");
+    run.assume("write_format: the 'documented separators' are taken from the crate's own `output` test ([2,2,3] of 0..12 is written as \"0 1 2\\n3 4 5\\n\\n6 7 8\\n9 10 11\") and the property's anchor (spaces inside the last dimension, one more newline per outer dimension): elements of the last dimension joined by ' ', sub-blocks of a rank-k block joined by k-1 '\\n', nothing after the last element; each element's own text is whatever the real Writer delivers for that element written into an empty buffer and flushed. The property statement itself only demands the round trip (family io_roundtrip); write_format is a separate family");
     run.assume("io_roundtrip: String elements are restricted to non-empty tokens of printable non-space ASCII (the Reader is whitespace-separated and byte-oriented); empty, whitespace-containing and non-ASCII candidates are skipped and counted in skipped_out_of_domain");
     run.assume("clone / clone_from: the statement does not name Clone; a tensor obtained through the type's public Clone impl is taken to be a tensor in the statement's sense (it has a shape, dims(), and must index it row-major with per-dimension checks, iterate, write and read back, and compare accordingly), and `a.clone_from(&b)` is taken, per the std contract of Clone, to leave `a` equal to `b.clone()` — so the copy is held to the source's shape and elements. Nothing else about Clone (capacity reuse, allocation) is demanded");
     run.assume("equality across shapes can only be expressed for equal rank (different ranks are different types)");
+    run.assume("Writer history: the statement's round trip is taken to hold wherever in a Writer's output the tensor is written (several results written through one Writer is the library's normal use); the text is read back from the position where the tensor starts, the filler itself is not parsed. Fill levels are enumerated only near the observed buffer boundary (and 0) and only for the first rotation of each value list; the Writer's own behaviour at all fill levels is C09's subject. This engine is built without debug assertions only (in a debug-assertions build the Writer flushes after every item and has no fill level)");
+    run.assume("elem_*: the statement does not restrict the element type; T is taken to range over any type with the bounds the API asks for (Clone for new/from_slice, PartialEq for ==), including zero-sized ones. 'elements agree' is judged by T's own ==, and only element types with a reflexive == are used (no NaN-like values), so a tensor must equal itself and its clone. The IO round trip is not part of these families ((), the structs and bool have no Readable/Writable impl)");
     run.assume("a panic from the Vec bounds check counts as 'rejected with a panic' for out-of-range indices whose flattened offset is outside the storage; for offsets inside the storage only the per-dimension check can produce it");
     run.finish(&confirm)
 }
